@@ -138,6 +138,11 @@ macro_rules! impl_from_slice_conversions {
                     // First, we need a raw pointer to the slice and to make sure that the `Box` is
                     // forgotten so that our slice does not get deallocated.
                     let len = slice.len();
+                    // A slice that cannot be converted is dropped (and so deallocated) here,
+                    // before ownership of the allocation is given up below.
+                    if len % $N != 0 {
+                        return None;
+                    }
                     let slice_ptr = &mut slice as &mut [S] as *mut [S];
                     core::mem::forget(slice);
                     let sample_slice = unsafe {
